@@ -1,5 +1,5 @@
 """C01 - generated parsers implement PEG semantics for the core expressions."""
-from contracts import core
+from contracts import core, segments
 from pyvc.report import Report
 from .common import run_fragments
 from . import wiring
@@ -11,13 +11,16 @@ def run(tier, seed):
                      'for all inputs, positions and child behaviours, to implement the documented PEG meaning (ok/value/end), '
                      'to report failures consistently with its static flags (G-as, G-cps), to stay in range and to write only its own temporaries.')
     run_fragments(rep, core.CORE, tier)
+    # arbitrary arity: segment induction for Choice, closure checks for Seq (section 0, deviation 4)
+    segments.ChoiceSegments().run(rep, tier)
+    segments.seq_closure(rep, tier)
     wiring.rule_wrapper_obligations(rep, tier)
     wiring.a_subst_obligations(rep, tier)
     wiring.a_uniform_obligations(rep, tier)
     rep.functions.update(['sourcer.expressions.utils.if_succeeds', 'sourcer.expressions.utils.if_fails',
                           'sourcer.expressions.utils.breakable', 'sourcer.expressions.utils.skip_ignored',
                           'sourcer.expressions.base.Expression.compile'])
-    rep.assumptions.append('n-ary classes (Seq, Choice, Longest, Skip) are proved outright for arity <= 3 (quick) / <= 4 (thorough); larger arities rest on A-uniform')
+    rep.assumptions.append('arity: Choice is proved for EVERY arity by segment induction (head / middle / last+tail triples from an arbitrary state satisfying the cut-point invariant + closure of the segment shapes at arity 5 and 7); Seq: outright <= 3/4 + closure (segments are proved shapes, items distinct, display in order); Longest, Skip: outright <= 3/4, larger arities rest on A-uniform')
     rep.assumptions.append('re contract: matcher(text,pos) is None or a match with pos <= end <= len(text), a function of (pattern, flags, text, pos)')
     rep.assumptions.append('driver contract for rule references: the answer to a request (CALL, f, pos) is the outcome of f at pos (proved for _run under C07/C08)')
     return rep.finish()
